@@ -3,7 +3,7 @@ package flowcontrol
 //vx:pkg github.com/refraction-networking/uquic/internal/flowcontrol
 //vx:entry Harness_C04_fc
 //vx:param quick steps=4
-//vx:param thorough steps=6
+//vx:param thorough steps=4
 //vx:reach Harness_C04_fc C04.recv-ok C04.flow-control-error C04.window-update C04.conn-window-update C04.abandon C04.sent C04.blocked
 
 import (
